@@ -1,4 +1,5 @@
 import typing as t
+import unicodedata
 
 from . import nodes
 from .visitor import NodeVisitor
@@ -52,6 +53,12 @@ class Symbols:
 
     def _define_ref(self, name: str, load: tuple[str, str | None] | None = None) -> str:
         ident = f"l_{self.level}_{name}"
+
+        if unicodedata.normalize("NFKC", ident) != ident:
+            # Python compares identifiers in their NFKC form, a variable
+            # for this name would be the variable of another name.
+            ident = f"lx_{self.level}_{name.encode().hex()}"
+
         self.refs[name] = ident
         if load is not None:
             self.loads[ident] = load
